@@ -6,10 +6,10 @@
 // random: documents by construction from the quantifier of C03 (scalars, nulls, lists of
 // lists, plain maps incl. empty, switches of 1-3 registered dimensions in any nesting order,
 // with/without default, case variants of the value names) x a selection of every dimension
-// through the builder default or an environment variable; each case carries the generator's
+// through the builder default, an environment variable or the dimension's flag; each case carries the generator's
 // own by-construction expectation.  ood: documents outside the quantifier (mixed maps,
-// default-only maps, same-dimension nesting, case-variant duplicates, unparsable environment
-// values), compared with the model only.  replay: inputs from a JSON-lines file.
+// default-only maps, same-dimension nesting, case-variant duplicates, unparsable environment or
+// flag values, YAML anchors/aliases/merge keys, non-string keys), compared with the model only.  replay: inputs from a JSON-lines file.
 // (generator and case runner live in ./gcx, shared with c16 and c10)
 package main
 
@@ -58,6 +58,28 @@ func oodCase(g *gcx.Gen, out *gal.Out) {
 	gcx.RunCase(out, "ood", gcx.Input{Dims: g.Regs, Env: env, Doc: doc}, nil, nil, false)
 }
 
+// rawTexts: YAML the generator cannot produce through yaml.Marshal — anchors and aliases (the
+// decoded value shares nodes, which reduceAny rewrites in place), merge keys, non-string keys
+// (nested maps with such keys decode to map[any]any and are opaque to the resolution).  All out
+// of the property's domain: compared with the model (which sees a tree), never gating.
+var rawTexts = []string{
+	"base: &b\n  D1a: x\n  default: y\nuse: *b\nlist:\n  - *b\n  - *b\n",
+	"p: &p\n  k:\n    D1a: 1\n    default: 2\n  l: [1, {D2a: a, default: b}]\nq: *p\nr: {inner: *p}\n",
+	"defaults: &d\n  timeout: {D1b: 1s, default: 2s}\n  name: n\nsvc:\n  <<: *d\n  name: other\n",
+	"m:\n  1: one\n  2: two\n  true: t\n  D1a: x\n",
+	"1: top\ntrue: b\nk: v\n",
+	"sw:\n  D1a: {1: x, 2: y}\n  default: {z: {D2a: 1, default: 2}}\n",
+	"a: &x [1, 2]\nb: *x\nc: {D1a: *x, default: []}\n",
+	"k: !!str 12\nn: !!null\nf: !!float 3\nt: 2001-12-14\n",
+}
+
+func rawCases(g *gcx.Gen, out *gal.Out) {
+	for _, txt := range rawTexts {
+		env := g.Setup()
+		gcx.RunCase(out, "ood", gcx.Input{Dims: g.Regs, Env: env, RawYaml: txt}, nil, nil, false)
+	}
+}
+
 // corpus: the DESIGN §5 witnesses and a few fixed shapes (further ones: /verif/corpus/C03).
 func corpus(out *gal.Out) {
 	d12 := []gcx.DimReg{{Enum: 1, Name: "d1", Default: 0}, {Enum: 2, Name: "d2", Default: 0}}
@@ -101,6 +123,7 @@ func main() {
 		}
 	case "ood":
 		g.OOD = true
+		rawCases(g, out)
 		for i := 0; i < *n; i++ {
 			oodCase(g, out)
 		}
